@@ -47,6 +47,21 @@ struct StackNode<W, R, T> {
     next: Option<Rc<StackNode<W, R, T>>>,
 }
 
+impl<W, R, T> Drop for StackNode<W, R, T> {
+    fn drop(&mut self) {
+        // the chain is unlinked in a loop: dropping it node by node through the default (recursive)
+        // drop overflows the host stack for a long stack
+        let mut next = self.next.take();
+        while let Some(node) = next {
+            match Rc::try_unwrap(node) {
+                Ok(mut inner) => next = inner.next.take(),
+                // shared with another stack, which keeps the rest alive
+                Err(_) => break,
+            }
+        }
+    }
+}
+
 impl<W, R, T> StackNode<W, R, T> {
     fn first(value: Rc<ManagedXValue<W, R, T>>) -> Rc<Self> {
         Rc::new(Self { value, next: None })
